@@ -382,8 +382,11 @@ func queueHistory(c *Ctx, prop string, idx int, rng *rand.Rand, sc *qScenario) {
 					// resumed file with missing ranges and its own predecessor
 					mf.recovered = true
 					mf.rprev = fmt.Sprintf("%s/old%d", grouper(name), rng.Intn(3))
-					if rng.Intn(6) == 0 {
+					switch rng.Intn(8) {
+					case 0:
 						mf.rprev = name // stored predecessor equal to own name
+					case 1, 2:
+						mf.rprev = "" // it was the first of its group when it was first sent: it announced none
 					}
 					var left []*sts.ByteRange
 					pos := int64(0)
